@@ -102,7 +102,9 @@ def lifetimes(beh, ctxs, rnd, variant):
             cur.append({"op": "flush_wait"})
         elif a == "remember":
             cur.append({"op": "cmd", "text": "REMEMBER QUERY ev WHERE x >= 1 AS m1", "tag": [i, "remember"]})
-            cur.append({"op": "cmd", "text": "REMEMBER QUERY ev AS m1", "tag": [i, "remember_again"]})
+            # a second REMEMBER under the same name must be rejected AND harmless: a retry of the same query, or another query
+            again = "REMEMBER QUERY ev WHERE x >= 1 AS m1" if i % 2 == 0 else "REMEMBER QUERY ev AS m1"
+            cur.append({"op": "cmd", "text": again, "tag": [i, "remember_again"]})
         elif a == "show":
             cur.append({"op": "cmd", "text": "SHOW m1", "tag": [i, "show"], "timeout_ms": 15000})
             cur.append({"op": "cmd", "text": "QUERY ev WHERE x >= 1", "tag": [i, "live"]})
